@@ -204,7 +204,9 @@ def run(ctx):
                 'malformed family: n stages x shape (a malformed entry while the rest sums to one / well-formed numbers '
                 'written as texts, booleans, ints or missing / not summing to one / a negative numeric text / nothing '
                 'usable) x kind of malformed entry (unparsable text, nan or inf as float or text, None/list/mapping), '
-                'loaded through inject_default_values and then StatusMonitor, or set after loading (the monitor alone)')
+                'loaded through inject_default_values and then StatusMonitor, or set after loading (the monitor alone); '
+                'controller family: DoWhile over 1-4 stages x 1-2 components per stage x 1-3 iterations x plain stage '
+                'before/after x order of the terminations, through the real Controller and the real CheckStatus')
     rng = ctx.rng
     ns = list(range(1, 61)) + [99, 100, 101, 333, 999, 1000, 1001, 1500]
     kinds = ['missing', 'exact3', 'exact3_some_missing', 'off3', 'negative', 'four']
@@ -229,6 +231,8 @@ def run(ctx):
     _explore_malformed(ctx, load, direct=False)
     _explore_malformed(ctx, direct, direct=True)
     ctx.count('malformed_cases', len(load) + len(direct))
+    # the real Controller driven through DoWhile iterations: which stages the report counts
+    _explore_controller(ctx, CTL_CORPUS + [gen_ctl(rng) for _ in range(3 if ctx.tier == 'quick' else 24)])
 
 
 def replay(ctx, path):
@@ -237,6 +241,9 @@ def replay(ctx, path):
     d = json.load(open(path))
     c = d.get('case') or d.get('first', {}).get('case')
     ms = c.get('given') if isinstance(c, dict) else None
+    if isinstance(c, dict) and c.get('controller'):
+        _explore_controller(ctx, [c['controller']])
+        ms = ()
     if isinstance(c, dict) and c.get('malformed'):
         mc = c['malformed']
         _explore_malformed(ctx, [(mc['scale'], mc['entries'])], direct=bool(mc.get('direct')))
@@ -641,6 +648,75 @@ def malformed_cases(rng, tier):
         c, ent, _shape = gen_malformed(rng, n)
         load.append((c, ent))
     return load, direct
+
+
+# ----------------------------------------------------------------------------------------------------------
+# The REAL Controller: which stages CheckStatus counts while nodes are added to stages that had finished
+SCHECKER = 'check_scase'
+CTL_CORPUS = [
+    # a loop over three stages after a plain stage, two iterations (a stage other than the current one finishes, then
+    # the next iteration adds a node to it); the same with two components per stage; a loop over two stages
+    {'pre': 1, 'K': 3, 'width': [1, 1, 1], 'iters': 2, 'post': 0, 'weights': [200, 200, 500, 100], 'seed': 1},
+    {'pre': 0, 'K': 2, 'width': [1, 2], 'iters': 2, 'post': 1, 'weights': None, 'seed': 2},
+]
+
+
+def gen_ctl(rng):
+    K = rng.choice([1, 2, 3, 3, 3, 4])
+    pre, post = rng.randint(0, 1), rng.randint(0, 1)
+    n = pre + K + post
+    cuts = sorted(rng.randint(0, 1000) for _ in range(n - 1))
+    w = [b - a for a, b in zip([0] + cuts, cuts + [1000])]
+    return {'pre': pre, 'K': K, 'width': [rng.randint(1, 2) for _ in range(K)], 'iters': rng.randint(1, 3), 'post': post,
+            'weights': w if rng.random() < 0.7 else None, 'seed': rng.randint(0, 10 ** 6)}
+
+
+def _explore_controller(ctx, cases):
+    import c20_ctl
+    terms, tcases = [], []
+    for case in cases:
+        obs = c20_ctl.drive(case)
+        ctx.case(['controller', case], True)
+        ctx.count('controller:loop_over_%d_stages' % case['K'])
+        ctx.count('controller:iterations=%d' % case['iters'])
+        if 'error' in obs:
+            ctx.disagree({'controller': case}, obs, 'the workflow loads and the controller is driven to the end',
+                         'C20 controller driver (harness/c20_ctl.py)')
+            continue
+        w = [Fraction(repr(x)) for x in obs['weights']]
+        n = len(w)
+        seen_again = False
+        was_finished = set()
+        for ev in obs['events']:
+            shown = {'controller': case, 'event': ev['event'], 'finished': ev['finished'], 'transit': ev['transit'],
+                     'total': ev['total']}
+            both = sorted(set(ev['finished']) & set(ev['transit']))
+            if both:
+                ctx.fail(shown, 'stages %s are reported both finished and in transit' % both, [])
+            if was_finished & set(ev['transit']):
+                seen_again = True
+            was_finished |= set(ev['finished'])
+            tp = ev['total']
+            expect = sum(w[int(s)] * Fraction(d[0], d[1]) for s, d in ev['done'].items())
+            if tp is None or abs(Fraction(tp) - expect) > proved_bound(n, expect):
+                ctx.disagree(shown, tp, float(expect), 'C20 total progress with the real Controller: CheckStatus vs the '
+                             'weighted fraction of terminated components per stage (Weights.Model.total)')
+            if tp is not None and not (0 <= Fraction(tp) <= 1 + proved_bound(n, 1)):
+                ctx.fail(shown, 'total progress outside [0,1]', [])
+            if ev['event'] == 'end' and (tp is None or abs(Fraction(tp) - 1) > proved_bound(n, 1)):
+                ctx.fail(shown, 'total progress is not one when every stage completed', [])
+            terms.append(cpair(cpair(clist(list(range(n)), cZ),
+                                     clist([cpair(cZ(a), cbool(b)) for a, b in ev['nodes']], str)),
+                               cpair(clist(ev['finished'], cZ), clist(ev['transit'], cZ))))
+            tcases.append(shown)
+        if seen_again:
+            ctx.count('controller:a_finished_stage_became_active_again')
+        ctx.sample({'controller': case, 'events': [[e['event'], e['finished'], e['transit'], e['total']] for e in obs['events']][:12]},
+                   limit=12)
+    bad = ctx.model_mismatches(HEADER, terms, SCHECKER, chunk=300, name='model_ctl')
+    for i in bad:
+        ctx.disagree(tcases[i], terms[i][-300:], '', 'C20 stages counted: Controller.get_stages_finished/'
+                     'get_stages_in_transit vs Weights.Model.stages_finished/stages_in_transit')
 
 
 def _explore(ctx, cases, complete=False):
